@@ -134,7 +134,7 @@ def judge(scn, obs, world):
                 return {'backend': 'persistent',
                         'history': 'multi-round-relative-index'}
             if raced:
-                return {'race': 'fetch-overlaps-completion'}
+                return {'race': 'first-attempt-completes-before-write-returns'}
             d = {'backend': be}
             d.update(kw)
             return d
@@ -191,6 +191,20 @@ def judge(scn, obs, world):
                 break
             obs_set.append((frozenset(named or ()), code, msg))
         else:
+            # a recipient fails for good at most once: it is never named in
+            # two bounces of the same message
+            named_count = {}
+            for o in obs_set:
+                for r in o[0]:
+                    named_count[r] = named_count.get(r, 0) + 1
+            twice = sorted(r for r, n in named_count.items() if n > 1)
+            if twice:
+                v.append({'clause': 'C13/count',
+                          'detail': det(kind='recipient-bounced-twice'),
+                          'msg': 'message %d: recipient %s is named in %d '
+                                 'bounces' % (k, twice[0],
+                                              named_count[twice[0]])})
+                continue
             # multiset comparison
             e2 = list(exp)
             extra = []
